@@ -22,6 +22,7 @@ def start_texts(tier, kind):
         texts += X.same_op_groupings(4)
         texts += X.deep_chains()
         texts += X.unary_wrapped_groupings()
+        texts += [t for t in X.CASE_TWINS if "=" not in t] + X.sign_twins()
         texts += [t for t in X.FOLD_MAGNITUDES if "=" not in t]
         if tier == "thorough":
             texts += X.power_nests()
@@ -33,7 +34,7 @@ def start_texts(tier, kind):
         texts = [t for t in X.repo_inputs(REPO) if "=" in t]
         heavy = len(texts)
         texts += X.equations()
-        texts += [t for t in X.FOLD_MAGNITUDES if "=" in t]
+        texts += [t for t in X.FOLD_MAGNITUDES if "=" in t] + [t for t in X.CASE_TWINS if "=" in t] + X.product_equations()
         texts += X.contexts(1 if tier == "quick" else 2)
 
         texts += X.equations3() if tier == "thorough" else X.equations3(("2", "x", "3x", "0x"), ("+", "*"))
@@ -128,7 +129,7 @@ def explore_text(acc, visitor, text, depth, want_root, dup_ids=False):
                         queue.append((nroot, ns, trace + [[cname, index]]))
 
 
-def explore_inplace(acc, visitor, text, want_root):
+def explore_inplace(acc, visitor, text, want_root, relist=True):
     """Depth-2 exploration in IN-PLACE mode: rules are applied to the live tree (as the repository's own
     run_rule_tests does), not to a clone.  For every first transition t1 and every second transition t2
     applicable afterwards, the state is rebuilt (fresh parse, scan, t1 in place, scan) and t2 is applied in
@@ -136,8 +137,14 @@ def explore_inplace(acc, visitor, text, want_root):
     def rebuild(trace):
         RW.reset_configs()
         root = RW.parse(text)
-        for cname, index in trace:
-            RW.scan(root)
+        for k, (cname, index) in enumerate(trace):
+            if relist or k == 0:
+                RW.scan(root)
+                for _, r_ in RW.configs():
+                    try:
+                        r_.find_nodes(root)
+                    except Exception:  # noqa
+                        pass
             node = RW.inorder(root)[index]
             root = RW.get_root(RW.config(cname).apply_to(node).result)
         return root
@@ -180,12 +187,15 @@ def explore_inplace(acc, visitor, text, want_root):
                     cur = rebuild(trace[:-1])
                 except Exception:  # noqa
                     continue
-                RW.scan(cur)
-                for _, r_ in RW.configs():  # search agents list the applicable nodes before choosing one
-                    try:
-                        r_.find_nodes(cur)
-                    except Exception:  # noqa
-                        pass
+                if relist or len(trace) == 1:
+                    RW.scan(cur)
+                    for _, r_ in RW.configs():  # search agents list the applicable nodes before choosing one
+                        try:
+                            r_.find_nodes(cur)
+                        except Exception:  # noqa
+                            pass
+                # relist=False: the second step is taken WITHOUT listing again - whatever was stamped on the nodes
+                # (r_index) or remembered by the rules describes the tree before the first rewrite
                 s = SG.sig(cur)
                 cname, index = trace[-1]
                 rule = RW.config(cname)
@@ -194,23 +204,59 @@ def explore_inplace(acc, visitor, text, want_root):
                     continue
                 node = nodes[index]
                 nb_node = node  # neighbourhood is read before the rewrite
-                ctx = {"text": text, "trace": [list(x) for x in trace[:-1]], "inplace": True}
+                ctx = {"text": text, "trace": [list(x) for x in trace[:-1]], "inplace": True, "relist": relist}
                 acc.count("transitions")
                 acc.count("inplace_transitions")
                 acc.count("applied:" + cname)
                 before_nb = RW.neighbourhood(nb_node)
+                node_sig0, node_path0 = SG.sig(node), RW.path_of(node)
                 result = change = error = None
                 try:
                     change = rule.apply_to(node)
                     result = change.result
                 except Exception as e:  # noqa
                     error = e
-                visitor.on_transition(acc, dict(ctx, nb=before_nb), None, s, cname, rule, index, node, result, change, error)
+                visitor.on_transition(acc, dict(ctx, nb=before_nb, node_sig=node_sig0, node_path=node_path0), None, s, cname, rule, index,
+                                      node, result, change, error)
                 if error is None and result is not None and hasattr(visitor, "on_live_state"):
                     visitor.on_live_state(acc, dict(ctx, trace=[list(x) for x in trace]), RW.get_root(result))
 
 
 _TASK = {}
+_CHUNK = {}
+
+
+def chunk_info():
+    """what a violation needs in order to be replayed with the same process history: the texts of its chunk up
+    to and including the current seed, and the exploration mode"""
+    if not _CHUNK:
+        return {}
+    return {"chunk_texts": list(_CHUNK["texts"][_CHUNK["lo"]: _CHUNK["i"] + 1]), "chunk_depth": _CHUNK["depth"],
+            "chunk_root": _CHUNK["want_root"]}
+
+
+def _replay_chunk_work(args):
+    vis_factory, texts, depth, want_root = args
+    acc = Acc()
+    visitor = vis_factory()
+    for t in texts:
+        if depth == "inplace-stale":
+            explore_inplace(acc, visitor, t, want_root, relist=False)
+        elif depth == "inplace":
+            explore_inplace(acc, visitor, t, want_root)
+        elif depth == "dupids":
+            explore_text(acc, visitor, t, 1, want_root, dup_ids=True)
+        else:
+            explore_text(acc, visitor, t, depth, want_root)
+    return acc
+
+
+def replay_chunk(case, vis_factory):
+    """third level of replay: the whole chunk prefix in one freshly forked process"""
+    if "chunk_texts" not in case:
+        return []
+    acc = par.run_fresh(_replay_chunk_work, (vis_factory, case["chunk_texts"], case["chunk_depth"], case.get("chunk_root", "any")))
+    return [(core, ent["examples"][0]["detail"]) for core, ent in acc.viol.items()]
 
 
 def _work(task):
@@ -218,13 +264,26 @@ def _work(task):
     texts = _TASK[texts_key]
     acc = Acc()
     visitor = vis_factory()
+    _CHUNK["texts"], _CHUNK["lo"], _CHUNK["depth"], _CHUNK["want_root"] = texts, lo, depth, want_root
     for i in range(lo, hi):
+        _CHUNK["i"] = i
         if depth == "inplace":
             explore_inplace(acc, visitor, texts[i], want_root)
+        elif depth == "inplace-stale":
+            explore_inplace(acc, visitor, texts[i], want_root, relist=False)
         elif depth == "dupids":
             explore_text(acc, visitor, texts[i], 1, want_root, dup_ids=True)
         else:
             explore_text(acc, visitor, texts[i], depth, want_root)
+    # what each recorded violation needs for a replay with the same process history
+    pos = {texts[i]: i for i in range(hi - 1, lo - 1, -1)}
+    for ent in acc.viol.values():
+        for ex in ent["examples"]:
+            c = ex["case"]
+            if isinstance(c, dict) and c.get("text") in pos and "chunk_texts" not in c:
+                c["chunk_texts"] = list(texts[lo: pos[c["text"]] + 1])
+                c["chunk_depth"] = depth
+                c["chunk_root"] = want_root
     return acc
 
 
@@ -240,7 +299,9 @@ def run(vis_factory, texts, depth, want_root, seed, heavy_first=0, key="texts"):
     rest = rest[k:] + rest[:k]
     # long tasks first, deterministic order of results
     tasks = [(vis_factory, key, lo, hi, depth, want_root) for lo, hi in parts + rest[::-1]]
-    accs = par.pmap(_work, tasks)
+    # every chunk in its own freshly forked process: module- or class-level state of the code under test depends
+    # only on the chunk; such a violation is replayed by re-running the chunk's texts up to the seed (replay_chunk)
+    accs = par.pmap(_work, tasks, fresh=True)
     acc = merge_all(accs)
     acc.n["start_texts"] = n
     return acc
@@ -293,9 +354,41 @@ def reexplore(case, vis_factory):
     acc = Acc()
     visitor = vis_factory()
     if case.get("inplace"):
-        explore_inplace(acc, visitor, case["text"], "any")
+        explore_inplace(acc, visitor, case["text"], "any", relist=case.get("relist", True))
     elif case.get("dup_ids"):
         explore_text(acc, visitor, case["text"], 1, "any", dup_ids=True)
     else:
         explore_text(acc, visitor, case["text"], len(case.get("trace", [])) + 1, "any")
     return [(core, ent["examples"][0]["detail"]) for core, ent in acc.viol.items()]
+
+
+def _lvl1(args):
+    direct, case = args
+    try:
+        return direct(case)
+    except Exception:  # noqa
+        return []
+
+
+def _lvl2(args):
+    vis_factory, case = args
+    return reexplore(case, vis_factory)
+
+
+def layered_replay(case, direct, vis_factory):
+    """Replay in three levels, each in its own newly forked process so that none can pollute the next:
+    1. the recorded trace on its own; 2. the exploration of its seed from fresh rule objects; 3. the prefix of
+    its chunk (module- / class-level state left behind by earlier seeds).  Returns the violations of the first
+    level that reproduces the recorded core."""
+    want = case.get("_core")
+    got = par.run_fresh(_lvl1, (direct, case))
+    if got and (want is None or any(c == want for c, _ in got)):
+        return got
+    again = par.run_fresh(_lvl2, (vis_factory, case))
+    if want is not None and any(c == want for c, _ in again):
+        return [(c, d) for c, d in again if c == want]
+    if want is not None:
+        third = replay_chunk(case, vis_factory)
+        if any(c == want for c, _ in third):
+            return [(c, d) for c, d in third if c == want]
+    return again or got
